@@ -549,6 +549,8 @@ def run_check(P, tier, seed, replay=None):
         "theorems": names,
         "axioms_used": sorted({a for n in names for a in axioms.get(n, [])}),
         "lean_modules_audited": audited,
+        "constants_not_reextracted": (json.load(open(os.path.join(LEAN, "FluentModel", "Generated.notes.json")))
+                                      if os.path.exists(os.path.join(LEAN, "FluentModel", "Generated.notes.json")) else []),
         "checker_cmd": "cd lean && lake build %s && lake env lean .work/Audit_%s.lean (#print axioms)" % (module, pid),
         "trusted_base": TRUSTED_BASE + list(getattr(P, "TRUSTED", [])),
         "evaluations": evaluations,
